@@ -450,3 +450,85 @@ class Gen:
             "string": [b"abc", 1, None, ["a"]],
         }
         return r.choice(bad[t])
+
+
+# ---------------------------------------------------------------------- targeted families
+def ambiguous_union_case(g):
+    """records with overlapping, optional fields used as union branches, inline or by name: the datum
+    conforms to several branches and the rule 'most shared field names, first on ties' decides."""
+    r = g.r
+    pool = ["a", "b", "c", "x", "y", "id"]
+    ns = r.choice(["", "", "ns", "a.b"])
+    nrec = r.randint(2, 4)
+    recs = []
+    for i in range(nrec):
+        names = r.sample(pool, r.randint(1, 4))
+        fields = []
+        for fn in names:
+            t = r.choice(["int", "string", "long", ["null", "int"], ["null", "string"]])
+            f = {"name": fn, "type": t}
+            k = r.random()
+            if isinstance(t, list):
+                if k < 0.6:
+                    f["default"] = None
+            elif k < 0.5:
+                f["default"] = 7 if t in ("int", "long") else "d"
+            fields.append(f)
+        rec = {"type": "record", "name": "Rec%d" % i, "fields": fields}
+        if ns:
+            rec["namespace"] = ns
+        recs.append(rec)
+    by_name = r.random() < 0.6
+    extra = r.sample(["null", "string", {"type": "map", "values": "int"}, "double", "float"], r.randint(0, 2))
+    if by_name:
+        holder_fields = [{"name": "d%d" % i, "type": rec} for i, rec in enumerate(recs)]
+        fulls = [((ns + ".") if ns else "") + rec["name"] for rec in recs]
+        branches = [r.choice([f, rec["name"]]) if ns else f for f, rec in zip(fulls, recs)]
+        r.shuffle(branches)
+        pos = r.randint(0, len(branches))
+        un = list(branches)
+        for e in extra:
+            un.insert(r.randint(0, len(un)), e)
+        holder = {"type": "record", "name": "Holder", "fields": holder_fields + [{"name": "u", "type": un}]}
+        if ns:
+            holder["namespace"] = ns
+        schema = holder
+    else:
+        un = list(recs)
+        r.shuffle(un)
+        for e in extra:
+            un.insert(r.randint(0, len(un)), e)
+        schema = {"type": "record", "name": "Holder", "fields": [{"name": "u", "type": un}]}
+
+    def rec_datum(rec, full):
+        out = {}
+        for f in rec["fields"]:
+            if "default" in f and r.random() < 0.5:
+                continue
+            t = f["type"]
+            if isinstance(t, list):
+                out[f["name"]] = r.choice([None, 5 if t[1] == "int" else "s"])
+            else:
+                out[f["name"]] = 3 if t in ("int", "long") else "v"
+        return out
+
+    data = []
+    for _ in range(4):
+        rec = r.choice(recs)
+        full = ((ns + ".") if ns else "") + rec["name"]
+        inner = rec_datum(rec, full)
+        k = r.random()
+        if k < 0.15:
+            inner = (full, inner)
+        elif k < 0.25:
+            inner = dict(inner)
+            inner["-type"] = full
+        d = {"u": inner}
+        if by_name:
+            for i, rc in enumerate(recs):
+                d["d%d" % i] = rec_datum(rc, None)
+                for f in rc["fields"]:
+                    if f["name"] not in d["d%d" % i] and "default" not in f:
+                        d["d%d" % i][f["name"]] = None if isinstance(f["type"], list) else (3 if f["type"] in ("int", "long") else "v")
+        data.append(d)
+    return schema, data
